@@ -176,8 +176,10 @@ section border
 variable {K : Type} [Add K] [Sub K] [Mul K] [OfNat K 0] [DecidableEq K]
 
 /-- exact reading of `np.linalg.matrix_rank(shared_vertices) == 2`: two rows are independent and every
-three rows are dependent.  (numpy decides this with a relative singular-value threshold; the two readings
-agree unless a singular value is within rounding of zero.) -/
+three rows are dependent.  (The code calls `matrix_rank(shared_vertices, tol=1e-9)`: numpy counts singular
+values above the absolute threshold `1e-9`; the two readings agree unless a singular value lies within
+`1e-9` of zero - two distinct reduced vertices parallel/antipodal within ~1e-9 - which the correspondence
+check excludes and counts.) -/
 def rankIs2 (vs : List (V3 K)) : Bool :=
   (vs.any fun a => vs.any fun b => decide (cross a b ≠ (⟨0, 0, 0⟩ : V3 K))) &&
   (vs.all fun a => vs.all fun b => vs.all fun c => decide (det3 a b c = 0))
